@@ -1067,5 +1067,7 @@ func runC17(c *gen.Ctx) error {
 	runC17RespSeq(c)
 	runC17Retry(c)
 	runC17StackSeq(c)
+	// ---- (o): two goroutines arbitrating one rawResponseWriter (c17race.go)
+	runC17Race(c)
 	return nil
 }
